@@ -130,6 +130,18 @@ def handle (langs : Array Language) (line : String) : String :=
     | "loc2idx" => run do
         let code ← parseStr; let l ← nextNat; let c ← nextNat
         return showOptNat ((locationToIndex code l c).map some)
+    | "ftok" => run do
+        let r ← parseRxP
+        let n ← nextNat
+        let mut toks := #[]
+        for _ in [0:n] do
+          let kind ← nextNat; let v ← parseStr
+          toks := toks.push (⟨kind, 0, v, 1, toks.size + 1⟩ : Tok)
+        return match compileTok r with
+          | .error e => s!"err {e.code}"
+          | .ok D => match findAll (dfaMachine D tokAcceptor) toks.toList with
+            | .error e => s!"err {e.code}"
+            | .ok ms => s!"ok {ms.length}" ++ String.join (ms.map fun m => s!" {m.s} {m.e} {m.toks.length}")
     | "nocl" => run do
         let v ← parseStr
         return (if isNoclText v then "ok T" else "ok F")
